@@ -51,13 +51,17 @@ def duccio_inputs(call: Term, strength: Term, target: Term, epoch: Term, nep: Te
     return inp
 
 
+# helpers of the regularizer classes are inlined; the model's cost stays a call
+KEEP19 = ('get_cost',)
+
+
 def run(ctx):
     repo = ctx.repo
     # R19a
     br = repo.cls('BaseRegularizer')
     call = br.methods['__call__']
     model = ('param', call.params[1])
-    for p in returning(paths(repo, call)):
+    for p in returning(paths(repo, call, keep=KEEP19)):
         want = ('bin', '*', ('call', ('attr', model, 'get_cost'),
                              (('attr', SELF, 'cost_name'),), ()), ('attr', SELF, 'strength'))
         ok = poly.equal(p.retval, want)
@@ -78,11 +82,11 @@ def run(ctx):
     du = repo.cls('DUCCIO')
     call = du.methods['__call__']
     epoch, nep = ('param', call.params[2]), ('param', call.params[3])
-    rets = [p for p in returning(paths(repo, call))
+    rets = [p for p in returning(paths(repo, call, keep=KEEP19))
             if any(e.kind == 'loopend' for e in p.events)]
     if not rets:
         raise AnalysisError('DUCCIO.__call__: loop path not found')
-    zero_rets = [p for p in returning(paths(repo, call))
+    zero_rets = [p for p in returning(paths(repo, call, keep=KEEP19))
                  if any(e.kind == 'loop0' for e in p.events)]
     for p in zero_rets:
         v = p.retval
@@ -96,7 +100,7 @@ def run(ctx):
     # two generic constraints (loop unrolled twice): one satisfied, one violated.  The penalty
     # must be > 0 and must grow with the violated cost: slack on one metric must not offset the
     # excess on another (each term is clamped on its own).
-    two = [p for p in returning(paths(repo, call, None, 2))
+    two = [p for p in returning(paths(repo, call, None, 2, keep=KEEP19))
            if sum(1 for e in p.events if e.kind == 'loopend') >= 1 and
            len({x for x in subterms(p.retval) if x[0] == 'elem' and
                 is_call(x[1], 'builtins.zip')}) == 2]
@@ -218,7 +222,7 @@ def run(ctx):
                    'ramp(n_epochs/2) is not the final strength', where(call))
     # R19c
     found = False
-    for p in returning(paths(repo, call)):
+    for p in returning(paths(repo, call, keep=KEEP19)):
         for e in p.events:
             if e.kind == 'setattr' and e.data[0] == SELF and e.data[1] == 'final_strengths':
                 found = True
